@@ -390,6 +390,8 @@ class Frame:
             cur_v = self.lookup(t.id)
             if isinstance(cur_v, Arr) and not is_scalar(cur_v):
                 # in-place array update
+                if cur_v.meta.get("view_of") is not None:
+                    raise Unsupported("in-place update of a view of another array (basic slice / transpose): the write-through to the base is not modelled")
                 new = self.binop(s.op, cur_v, rhs)
                 if isinstance(new, Arr):
                     if not all(sym.same_axes(x, y) for x, y in zip(new.axes, cur_v.axes)):
@@ -1872,7 +1874,20 @@ def builtin_call(fr: Frame, name, args, kwargs):
             return list(reversed(x))
         raise Unsupported("reversed() of a symbolic sequence")
     if name == "round":
-        raise Unsupported("round()")
+        if len(args) != 1 or kwargs:
+            raise Unsupported("round() with a number of digits")
+        x = args[0]
+        if is_int(x):
+            return x
+        if isinstance(x, F):
+            # round(x): some integer within 1/2 of x (which one at a tie - banker's rounding - is left open; NaN / inf raise in Python)
+            c = cur()
+            if c.branch(sym.zb(x.nan) if not isinstance(x.nan, bool) else x.nan):
+                raise PyRaise("ValueError", "cannot convert float NaN to integer")
+            r = c.fresh_int("round")
+            c.fact(z3.And(z3.ToReal(r) - x.v <= z3.RealVal("1/2"), x.v - z3.ToReal(r) <= z3.RealVal("1/2")))
+            return r
+        raise Unsupported("round() of a non-number")
     if name == "object":
         return Obj("object", {})
     if name == "set":
